@@ -236,7 +236,8 @@ def run_kernel(drv, case) -> Outcome:
     out.evaluations += 1
     if abs(real.sum() - 1) > 1e-9:
         out.fail("sampling-dist-sums-to-one", f"distribution after detection errors sums to {real.sum()}")
-    # marginal rates, read off the real distribution for a definite input bitstring
+    if case.get("via_config"):
+        via_config_path(out, case, eps, epsp)
     shots = int(case.get("shots", 0))
     if shots:
         np.random.seed(int(case.get("npseed", 0)))
@@ -270,6 +271,58 @@ def run_kernel(drv, case) -> Outcome:
     return out
 
 
+def via_config_path(out: Outcome, case, eps: float, epsp: float) -> None:
+    """The same rates given the documented way - NoiseModel(p_false_pos=eps, p_false_neg=eps') - must reach
+    the results: the legacy emulator's CoherentResults (epsilon = false positive, epsilon_prime = false
+    negative) and the V2 BitStrings observable."""
+    from pulser.backend.default_observables import BitStrings, StateResult
+    from pulser.noise_model import NoiseModel
+    from pulser_simulation import QutipBackendV2, QutipConfig, QutipEmulator, SimConfig
+
+    with warnings.catch_warnings():
+        warnings.simplefilter("ignore")
+        seq = build_sequence(dict(n=2, spacing=30.0, segments=[dict(ch="ryd", dur=100, amp=10.0, det=0.0, phase=0.0)]))
+        nm = NoiseModel(p_false_pos=eps, p_false_neg=epsp)
+        emu = QutipEmulator.from_sequence(seq, config=SimConfig.from_noise_model(nm), evaluation_times=[0.1])
+        legacy = emu.run()
+        out.evaluations += 1
+        me = getattr(legacy, "_meas_errors", None)
+        want_me = dict(epsilon=eps, epsilon_prime=epsp) if (eps or epsp) else None
+        if (me or None) != want_me and not (me == dict(epsilon=0.0, epsilon_prime=0.0) and want_me is None):
+            out.fail("detection-error-rates",
+                     f"NoiseModel(p_false_pos={eps}, p_false_neg={epsp}) reaches the legacy results as {me}",
+                     path="noise-model-to-results")
+            return
+        psi = legacy.states[-1].full().flatten()
+        w = expected_weights(2, 2, "ground-rydberg", True, np.abs(psi) ** 2)
+        expected = np_kernel(2, eps, epsp, w)
+        if me:
+            pd = np.real(legacy._calc_pseudo_density(len(legacy.states) - 1).diag())
+            real = np.array([pd[int("".join(str(1 - int(c)) for c in np.binary_repr(j, width=2)), 2)] for j in range(4)])
+            out.evaluations += 1
+            if not close(real, expected, 1e-9):
+                out.fail("detection-error-rates",
+                         f"legacy results built from NoiseModel(p_false_pos={eps}, p_false_neg={epsp}): distribution "
+                         f"{real} but independent flips give {expected}", path="noise-model-to-results")
+        # V2: BitStrings takes the rates from config.noise_model; probability-zero outcomes are hard failures
+        np.random.seed(int(case.get("npseed", 0)) + 7)
+        res = QutipBackendV2(seq, config=QutipConfig(observables=[BitStrings(num_shots=200), StateResult()],
+                                                     noise_model=nm)).run()
+        counts = dict(res.bitstrings[-1])
+        rho = res.state[-1].to_qobj()
+        p2 = np.abs(rho.full().flatten()) ** 2 if rho.isket else np.real(rho.diag())
+        exp2 = np_kernel(2, eps, epsp, expected_weights(2, 2, "ground-rydberg", True, p2))
+        dist = {np.binary_repr(i, width=2): p for i, p in enumerate(exp2) if p > 1e-9}
+        out.evaluations += 1
+        impossible = [k for k in counts if k not in dist]
+        if impossible or sum(counts.values()) != 200:
+            out.fail("detection-error-rates",
+                     f"V2 BitStrings with NoiseModel(p_false_pos={eps}, p_false_neg={epsp}) produced {counts}, "
+                     f"impossible under {dist}", path="noise-model-to-results")
+        for msg in mc.six_sigma_miss(counts, dist, 200):
+            out.warnings.append(f"V2 BitStrings with detection errors outside 6 sigma: {msg}")
+
+
 def gen_kernel(rng) -> dict:
     d, meas = rng.choice([(2, "ground-rydberg"), (2, "digital"), (2, "XY"), (3, "ground-rydberg"), (3, "digital")])
     n = rng.randint(1, 3)
@@ -284,6 +337,8 @@ def gen_kernel(rng) -> dict:
     case = dict(kind="kernel", d=d, n=n, meas=meas, eps=rng.choice(rates), epsp=rng.choice(rates), state=state)
     if rng.random() < 0.5:
         case.update(shots=rng.choice([400, 2000]), npseed=rng.randint(0, 10**6))
+    if rng.random() < 0.06:
+        case["via_config"] = True
     return case
 
 
@@ -429,6 +484,8 @@ def run_config(drv, case) -> Outcome:
     from pulser_simulation import QutipConfig
 
     Fake = fake_obs_class()
+    if case["dflt"] == "default":
+        return run_config_defaults(drv, case)
     dflt = "Full" if case["dflt"] == "Full" else [float(Fraction(x)) for x in case["dflt"]]
     num, den = case["rate"]
     obs = [Fake(i, i, evaluation_times=None) for i in range(int(case["n_obs"]))]
@@ -494,7 +551,45 @@ def run_config(drv, case) -> Outcome:
     return out
 
 
+def run_config_defaults(drv, case) -> Outcome:
+    """Documented defaults of QutipConfig / EmulationConfig (written out here, not read back):
+    default_evaluation_times (1.0,), sampling_rate 1.0, with_modulation False,
+    prefer_device_noise_model False, no initial state, no interaction matrix, empty noise model."""
+    from pulser.noise_model import NoiseModel
+    from pulser_simulation import QutipConfig
+
+    Fake = fake_obs_class()
+    out = Outcome(branch="constructor-defaults", nontrivial=True)
+    with warnings.catch_warnings():
+        warnings.simplefilter("ignore")
+        c = QutipConfig(observables=[Fake(0, 0)])
+        c2 = QutipConfig(**c._backend_options)
+    model = drv.ask("cfg [0] [1] 0 0 1 1")
+    for cfg, which in ((c, "constructed"), (c2, "re-created")):
+        got = dict(
+            default_evaluation_times=[float(x) for x in np.asarray(cfg.default_evaluation_times).flatten()],
+            sampling_rate=cfg.sampling_rate, with_modulation=cfg.with_modulation,
+            prefer_device_noise_model=cfg.prefer_device_noise_model, initial_state=cfg.initial_state,
+            interaction_matrix=cfg.interaction_matrix, noise_types=tuple(cfg.noise_model.noise_types),
+        )
+        want = dict(default_evaluation_times=[1.0], sampling_rate=1.0, with_modulation=False,
+                    prefer_device_noise_model=False, initial_state=None, interaction_matrix=None, noise_types=())
+        out.evaluations += 1
+        out.detail[which] = got
+        if got != want:
+            out.fail("config-defaults", f"{which} default configuration is {got}, documented {want}")
+        # the default time 1.0 is an evaluation time, 0.5 is not
+        if not cfg.is_evaluation_time(1.0) or cfg.is_evaluation_time(0.5):
+            out.fail("config-defaults", f"{which} default configuration: is_evaluation_time(1.0/0.5) = "
+                                        f"{cfg.is_evaluation_time(1.0)}/{cfg.is_evaluation_time(0.5)}")
+    if model != "ok [0] [1] 0 0 1 1":
+        out.diverge(f"model rejects the default configuration: {model}")
+    return out
+
+
 def gen_config(rng) -> dict:
+    if rng.random() < 0.03:
+        return dict(kind="config", dflt="default", n_obs=1, wm=False, pd=False, rate=[1, 1])
     r = rng.random()
     if r < 0.15:
         dflt = "Full"
@@ -538,12 +633,21 @@ def run_smoke(drv, case) -> Outcome:
             from pulser_simulation import QutipState
 
             v = np.array([mc.uncq(x) for x in case["init"]], dtype=complex)
-            dd, nn = emu.dim, len(seq.register.qubit_ids)
+            dd, nn = 2, int(spec["n"])          # ground-rydberg only: two levels [r, g]
             if v.size == dd**nn:
                 init = qutip.Qobj(v.reshape(-1, 1), dims=[[dd] * nn, [1] * nn])
                 emu.set_initial_state(init)
         legacy = emu.run()
+        # the times the legacy emulator was asked for, plus both end points (written out, not read back)
+        own_times = sorted({t * T / 1000 for t in rel_times} | {0.0, T / 1000})
         out.detail = dict(T=T, basis=emu.basis_name, times=rel_times)
+        out.evaluations += 1
+        n_atoms = int(spec["n"])
+        if len(legacy) != len(own_times) or tuple(legacy[0].atom_order) != tuple(f"q{i}" for i in range(n_atoms)):
+            out.fail("legacy-results-header",
+                     f"legacy emulator returned {len(legacy)} results with atom_order {legacy[0].atom_order} for "
+                     f"times {own_times} on atoms q0..q{n_atoms - 1}")
+            return out
         # random noise (doppler, amplitude, state preparation): the legacy emulator returns one random
         # trajectory or sampled counts, V2 the average density matrix over `runs` - nothing to compare
         # state by state; only the physicality of what V2 returns is looked at
@@ -568,7 +672,7 @@ def run_smoke(drv, case) -> Outcome:
                     out.fail("zero-drive", f"all-zero drive changed the state by {np.max(np.abs(a - b)):.3g}")
             if case.get("rabi"):
                 omega = case["rabi"]
-                for st, t in zip(legacy.states, emu._eval_times_array):
+                for st, t in zip(legacy.states, own_times):
                     out.evaluations += 1
                     p_r = abs(st.full()[0, 0]) ** 2          # |r> is the first basis vector
                     ref = np.sin(omega * t / 2) ** 2
@@ -583,7 +687,7 @@ def run_smoke(drv, case) -> Outcome:
             if init is not None:
                 from pulser_simulation import QutipState
 
-                extra["initial_state"] = QutipState(init, eigenstates=tuple(emu.samples_obj.eigenbasis))
+                extra["initial_state"] = QutipState(init, eigenstates=("r", "g"))
             cfg = QutipConfig(observables=[state_obs], noise_model=nm, **extra)
             backend = QutipBackendV2(seq, config=cfg)
             res = backend.run()
@@ -611,7 +715,7 @@ def run_smoke(drv, case) -> Outcome:
             return out
         v2_ts = [float(x) for x in res.get_result_times(state_obs)]
         for t_rel, s in zip(v2_ts, res.state):
-            idx = [i for i, t in enumerate(emu._eval_times_array) if abs(t / T * 1e3 - t_rel) <= 0.5 / T]
+            idx = [i for i, t in enumerate(own_times) if abs(t / T * 1e3 - t_rel) <= 0.5 / T]
             if not idx:
                 continue
             out.evaluations += 1
@@ -768,7 +872,7 @@ def run_stateprep(drv, case) -> Outcome:
                         **extra_noise)
         np.random.seed(int(case["npseed"]))
         emu = QutipEmulator.from_sequence(seq, config=SimConfig.from_noise_model(nm))
-        qids = list(emu._hamiltonian._qid_index)
+        qids = [f"q{i}" for i in range(n)]          # register order, as built by build_sequence
         opts = {}
         emu._validate_options(opts)
         yielded = []            # (bad atoms loaded for the run, repetitions, final state)
@@ -882,8 +986,9 @@ def run_stateprep(drv, case) -> Outcome:
                         dist["".join("1" if c == "0" else "0" for c in np.binary_repr(idx, width=n))] += p / runs
             counts = dict(noisy[-1].bitstring_counts)
             shots = sum(counts.values())
-            if shots != runs * nm.samples_per_run:
-                out.fail("sampling", f"legacy run returned {shots} shots for {runs} x {nm.samples_per_run}")
+            spr = int(case.get("samples_per_run", 5))
+            if shots != runs * spr:
+                out.fail("sampling", f"legacy run returned {shots} shots for {runs} x {spr}")
             impossible = [k for k in counts if dist.get(k, 0.0) == 0.0]
             if impossible:
                 out.fail("state-prep-mixture", f"legacy run sampled {impossible}, impossible under {dict(dist)}")
